@@ -325,6 +325,10 @@ class InterTagsFromGitToLocalGit(InterTags):
                 except NotCommitError:
                     trace.warning("%s points to a non-commit object", tag_name)
                     continue
+                if source_revid == target_revid:
+                    # the same revision on both sides (an annotated and a
+                    # lightweight tag, say): nothing to report
+                    continue
                 conflicts.append((tag_name, source_revid, target_revid))
         return updates, set(conflicts)
 
